@@ -165,6 +165,39 @@ Definition pl_union (sl sr : pstate) (distinct : bool) : pstate :=
      p_ns := map (fun u => (u, pname (p_ns sl) u)) (p_select sl);
      p_select := p_select sl; p_part := []; p_ctr := p_ctr sl; p_keys := lnames |}.
 
+(* inner / cross join.  Three passes of rename_overwritten_cols resolve name collisions among HIDDEN columns
+   (visible ones were suffixed by the join verb): (1) right columns named like a visible left column, (2) left
+   columns named like a visible right column, (3) right columns named like ANY left column.  The suffixes
+   are fresh uuids; the model numbers them so that all suffixes of the left frame are below
+   M = p_ctr left + |right select| and all suffixes of the right frame are at or above M (shift_names).
+   Columns that may be renamed: the frame's columns (p_keys) - in the code set(name_in_df.values()), the
+   same set since every frame column has an entry.  Then df.join / join_where: the pairs of rows for which
+   every predicate of the condition is true, columns of both frames side by side. *)
+Definition shift_dn (k : nat) (dn : dname) : dname :=
+  match dn with Hidden n c => Hidden n (c + k)%nat | User _ => dn end.
+Definition shift_names (k : nat) (st : pstate) : pstate :=
+  {| p_rows := map (map_keys (shift_dn k)) (p_rows st);
+     p_ns := map (fun un => (fst un, shift_dn k (snd un))) (p_ns st);
+     p_select := p_select st; p_part := p_part st; p_ctr := (p_ctr st + k)%nat;
+     p_keys := map (shift_dn k) (p_keys st) |}.
+Definition user_names (l : list dname) : list string := map uname (filter is_user l).
+
+Definition pl_join (sl sr0 : pstate) (on : expr) : pstate :=
+  let M := (p_ctr sl + List.length (p_select sr0))%nat in
+  let sr := shift_names M sr0 in
+  let news1 := map (fun u => uname (pname (p_ns sl) u)) (p_select sl) in
+  let sr1 := rename_over news1 (p_keys sr) sr in
+  let news2 := map (fun u => uname (pname (p_ns sr1) u)) (p_select sr1) in
+  let sl2 := rename_over news2 (p_keys sl) sl in
+  let news3 := user_names (p_keys sl2) in
+  let sr3 := rename_over news3 (p_keys sr1) sr1 in
+  let ns := p_ns sl2 ++ p_ns sr3 in
+  {| p_rows := flat_map (fun fl => map (fun fr => fl ++ fr)
+                                      (filter (fun fr => value_eqb (eval [] (O, view ns (fl ++ fr)) on) (VBool true)) (p_rows sr3)))
+                        (p_rows sl2);
+     p_ns := ns; p_select := p_select sl ++ p_select sr0; p_part := []; p_ctr := p_ctr sr3;
+     p_keys := p_keys sl2 ++ p_keys sr3 |}.
+
 Fixpoint pl_compile (d : db) (a : ast) : option pstate :=
   match a with
   | Source t cols =>
@@ -186,6 +219,11 @@ Fixpoint pl_compile (d : db) (a : ast) : option pstate :=
   | Union l r distinct =>
       match pl_compile d l, pl_compile d r with
       | Some sl, Some sr => Some (pl_union sl sr distinct)
+      | _, _ => None
+      end
+  | Join l r on JInner =>
+      match pl_compile d l, pl_compile d r with
+      | Some sl, Some sr => Some (pl_join sl sr on)
       | _, _ => None
       end
   | _ => None
@@ -248,6 +286,19 @@ Fixpoint pflat_ok (d : db) (a : ast) : bool :=
              && forallb (fun u => mem_u u (p_select st)) (p_part st)
              && forallb (fun u => negb (user_in (pname (p_ns st) u) (map (fun dd => fst (fst dd)) defs))) (p_part st)
          | None => false
+         end
+  | Join l r on JInner =>
+      (* the operands share no column identity, the visible column names differ (the join verb suffixes them),
+         the condition mentions columns in scope *)
+      pflat_ok d l && pflat_ok d r
+      && match pl_compile d l, pl_compile d r with
+         | Some sl, Some sr =>
+             forallb (fun x => mem_u x (dom (p_ns sl) ++ dom (p_ns sr))) (cols on)
+             && disjointb (dom (p_ns sl)) (dom (p_ns sr))
+             && disjointb (dom (p_ns sl)) (ast_uids r) && disjointb (dom (p_ns sr)) (ast_uids l)
+             && forallb (fun u => negb (mem_s (uname (pname (p_ns sl) u))
+                                              (map (fun x => uname (pname (p_ns sr) x)) (p_select sr)))) (p_select sl)
+         | _, _ => false
          end
   | Union l r _ =>
       (* every visible column name of the left operand is a visible column name of the right one (the
